@@ -193,6 +193,16 @@ func (g *gen) argsSpec() Val {
 			v.V = append(v.V, g.simple2())
 		}
 	}
+	// (short: the list is printed by many ops of many tasks)
+	st := &sites{}
+	for i := range v.V {
+		st.walkVal(&v.V[i])
+	}
+	for _, x := range st.strs {
+		if len(*x) > 150 {
+			*x = (*x)[:150]
+		}
+	}
 	return v
 }
 
